@@ -5,10 +5,8 @@ from harness.lib import sx as SX
 from harness.props import llp_common as L
 
 ID = "C02"
-DISABLED = "work in progress: harness and model exist, the C02 theorems are being proved (DESIGN.md section 8, C02)"
-SETUP_SKIP = True
 COQ_DIR = "C02"
-EXTRA_COQ_DIRS = ["LLP"]
+EXTRA_COQ_DIRS = ["LLP", "C01"]
 RUN_MOD = "C02.Run"
 MODEL_TARGETS = ["C02/Run.vo"]
 PROOF_TARGETS = ["C02/Lemmas.vo"]
